@@ -325,8 +325,13 @@ func (c *ColLowCardinality[T]) Prepare() error {
 	c.keys = append(c.keys[:0], make([]int, len(c.Values))...)
 	if c.kv == nil {
 		c.kv = map[T]int{}
-		c.index.Reset()
 	}
+	// Rebuilding dictionary from current values, keys are numbered from
+	// zero on each call, so index and value map can't be reused.
+	for k := range c.kv {
+		delete(c.kv, k)
+	}
+	c.index.Reset()
 
 	// Fill keys with value indexes.
 	var last int
